@@ -39,7 +39,10 @@ theorem generated_shapes :
       "for indv in population:     if self._redundant or not indv.fit_set:         indv.fitness = self.fitness_function(indv)" ∧
     Gen.Phases.islandStep =
       "self.generational_age += 1 ; self.population = self._ea.generational_step(self.population) ; for indv in self.population:     indv.genetic_age += 1" ∧
-    Gen.Phases.islandHofMembers = "return self.population" ∧
+    Gen.Phases.islandHofMembers = "self._evaluate_population_if_needed() ; return self.population" ∧
+    Gen.Phases.islandEvaluateIfNeeded =
+      "if not all((indv.fit_set for indv in self.population)):     self.evaluate_population()" ∧
+    Gen.Phases.islandEvaluate = "self._ea.evaluation(self.population)" ∧
     Gen.Phases.islandResetFitness =
       "if population is None:     population = self.population ; for indv in population:     indv.fit_set = False" ∧
     Gen.Phases.varOrAppend = "child.fit_set = False ; offspring.append(child)" ∧
@@ -47,7 +50,7 @@ theorem generated_shapes :
       "if self.hall_of_fame is not None:     self.hall_of_fame.update(self._get_potential_hof_members())     LOGGER.debug('Hall of fame updated')" ∧
     Gen.Phases.optimizerEvolve =
       "if not self._logged_headers:     self._log_all_headers() ; start_time = datetime.now() ; self._do_evolution(num_generations) ; if hall_of_fame_update:     self.update_hall_of_fame() ; if not suppress_logging:     self._log_evolution(start_time)" :=
-  ⟨rfl, rfl, rfl, rfl, rfl, rfl, rfl⟩
+  ⟨rfl, rfl, rfl, rfl, rfl, rfl, rfl, rfl, rfl⟩
 
 /-! ## 2. the abstract interpreter is sound for the concrete semantics -/
 
@@ -105,9 +108,26 @@ theorem histories_reads (f : Nat → Key) (p0 : List Indiv) :
     (∀ (h : History .ev),
       HSafe f (.read h) p0 ↔ HSafe f h p0 ∧ ∀ q, Reach f h p0 q → ∀ i ∈ q, Evaluated f i) ∧
     (∀ (a : AVal) (h : History a), HSafe f (.reset h) p0 ↔ HSafe f h p0) ∧
-    (∀ (a : AVal) (h : History a), HSafe f (.migrate h) p0 ↔ HSafe f h p0) :=
+    (∀ (a : AVal) (h : History a), HSafe f (.migrate h) p0 ↔ HSafe f h p0) ∧
+    (∀ (a : AVal) (h : History a),
+      HSafe f (.hofUpdate h) p0 ↔ HSafe f h p0 ∧
+        ∀ q cost redundant, Reach f h p0 q → ∀ i ∈ evalIfNeeded f cost redundant q, Evaluated f i) :=
   ⟨fun _ _ _ _ => Iff.rfl, fun _ _ _ => Iff.rfl, fun _ => Iff.rfl, fun _ _ => Iff.rfl,
-    fun _ _ => Iff.rfl⟩
+    fun _ _ => Iff.rfl,
+    fun _ _ => ⟨fun h => ⟨h.1, fun q cost red hq => h.2 _ ⟨q, cost, red, hq, rfl⟩⟩,
+      fun h => ⟨h.1, by rintro p ⟨q, cost, red, hq, rfl⟩; exact h.2 q cost red hq⟩⟩⟩
+
+/-- a hall-of-fame update is safe ANYWHERE in a history (on a brand-new island, right after a migration, after a call
+that evolved no generation): the population is evaluated first unless every member is already marked evaluated -/
+theorem hof_update_anywhere (f : Nat → Key) (a : AVal) (h : History a) (p0 : List Indiv)
+    (h0 : ∀ i ∈ p0, Fresh f i) :
+    HSafe f (.hofUpdate h) p0 ∧ ∀ p, Reach f (.hofUpdate h) p0 p → ∀ i ∈ p, Evaluated f i :=
+  history_sound (.hofUpdate h) h0
+
+/-- non-vacuity: on a brand-new (unevaluated) population the update evaluates everybody before reading -/
+example : HSafe Ex.f (.hofUpdate .start) Ex.pop ∧
+    evalIfNeeded Ex.f (fun _ => 1) false Ex.pop = (serialEval Ex.f (fun _ => 1) false Ex.pop).1 :=
+  ⟨(hof_update_anywhere Ex.f .fr .start Ex.pop (by decide)).1, by decide⟩
 
 /-! ## 5. the operations preserve freshness -/
 
